@@ -72,6 +72,14 @@ func groundElems(r *rand.Rand, n int) []*PT {
 
 // abstractList turns a ground list into a ground, partial or unbound argument.
 func abstractList(r *rand.Rand, xs []*PT, nq int) *PT {
+	if r.Intn(10) == 0 {
+		// an improper list: the spine ends in an atom other than () - no list relation holds of it
+		t := ptAtom(pick(r, listElems))
+		for i := len(xs) - 1; i >= 0; i-- {
+			t = ptPair(xs[i], t)
+		}
+		return t
+	}
 	switch r.Intn(4) {
 	case 0:
 		return ptB(r.Intn(nq))
